@@ -251,6 +251,21 @@ func checkLayoutSiblings(p *Program, r *Report, rule string) {
 						case "BigInnerOffset", "ShortMinusInner", "ShortMask":
 							got[fv.Name()] = e.eval(st.Val).String()
 							where = f
+							// computed in a constructor that is handed the two wire quantities: bind its
+							// parameters at its (single) call site
+							if len(f.Params) > 0 {
+								var sites []*ssa.Call
+								for _, g := range p.FuncsOf(triePath) {
+									for _, c := range callsIn(g) {
+										if call, ok := c.(*ssa.Call); ok && calleeOf(call) == f {
+											sites = append(sites, call)
+										}
+									}
+								}
+								if len(sites) == 1 {
+									got[fv.Name()] = bindFrames(p, st.Val, sites).String()
+								}
+							}
 						}
 					}
 				}
@@ -320,6 +335,58 @@ func builderSizePairs(p *Program, F *ssa.Function) string {
 	}
 	if ws == nil || bs == nil {
 		return "cannot find the label cut (PathsOf) and index (PathToIndex) calls"
+	}
+	// the pair may be two fields of one record value (a "node shape" chosen by a helper from package-level
+	// shapes that only their initialiser assigns): every record the value can be must be (4,17) or (8,257)
+	type fieldOf struct {
+		x     ssa.Value
+		field int
+	}
+	asField := func(v ssa.Value) (fieldOf, bool) {
+		switch x := v.(type) {
+		case *ssa.Field:
+			return fieldOf{x.X, x.Field}, true
+		case *ssa.UnOp:
+			if fa, ok := x.X.(*ssa.FieldAddr); ok && x.Op == token.MUL {
+				if al, ok := fa.X.(*ssa.Alloc); ok {
+					// a local record variable: its value is what is loaded from the variable
+					return fieldOf{&ssa.UnOp{Op: token.MUL, X: al}, fa.Field}, true
+				}
+			}
+		}
+		return fieldOf{}, false
+	}
+	sameBase := func(a, b ssa.Value) bool {
+		if a == b {
+			return true
+		}
+		ua, ok1 := a.(*ssa.UnOp)
+		ub, ok2 := b.(*ssa.UnOp)
+		return ok1 && ok2 && ua.X == ub.X
+	}
+	if fw, ok := asField(ws); ok {
+		if fb, ok := asField(bs); ok && sameBase(fw.x, fb.x) {
+			tuples, okT := structConstTuples(p, fw.x, 0)
+			if !okT || len(tuples) == 0 {
+				return "word size and bitmap size are fields of a record whose possible values cannot be enumerated"
+			}
+			seen := map[string]bool{}
+			for _, t := range tuples {
+				wc, okw := t[fw.field]
+				bc, okb := t[fb.field]
+				if !okw || !okb {
+					return "word size and bitmap size are fields of a record with a non-constant field"
+				}
+				if int64(1)<<uint(wc)+1 != bc || !(wc == 4 || wc == 8) {
+					return fmt.Sprintf("pair (%d,%d) is not (4,17) or (8,257)", wc, bc)
+				}
+				seen[fmt.Sprintf("%d,%d", wc, bc)] = true
+			}
+			if !seen["4,17"] || !seen["8,257"] {
+				return fmt.Sprintf("pairs found %v, want both (4,17) and (8,257)", sortedKeys(seen))
+			}
+			return ""
+		}
 	}
 	// the pair may be two results of one helper call (a "choose node size" function): judge its returns
 	if ew, ok := ws.(*ssa.Extract); ok {
@@ -795,3 +862,127 @@ func checkCapacity(p *Program, r *Report, rule string) {
 }
 
 func init() { checks["C01"] = checkC01 }
+
+// structConstTuples enumerates the constant field values a struct value can have: a call of a trie
+// helper (every return), a phi, a load of a package-level variable that only the package initialiser
+// assigns (its fields are what the initialiser stores), or a local composite literal.
+func structConstTuples(p *Program, v ssa.Value, d int) ([]map[int]int64, bool) {
+	if d > 4 || v == nil {
+		return nil, false
+	}
+	switch x := v.(type) {
+	case *ssa.Call:
+		h := calleeOf(x)
+		if h == nil || !trieScope(h) || len(h.Blocks) == 0 {
+			return nil, false
+		}
+		var out []map[int]int64
+		for _, ret := range returnsOf(h) {
+			if len(ret.Results) != 1 {
+				return nil, false
+			}
+			ts, ok := structConstTuples(p, ret.Results[0], d+1)
+			if !ok {
+				return nil, false
+			}
+			out = append(out, ts...)
+		}
+		return out, true
+	case *ssa.Phi:
+		var out []map[int]int64
+		for _, ed := range x.Edges {
+			ts, ok := structConstTuples(p, ed, d+1)
+			if !ok {
+				return nil, false
+			}
+			out = append(out, ts...)
+		}
+		return out, true
+	case *ssa.UnOp:
+		if x.Op != token.MUL {
+			return nil, false
+		}
+		var base ssa.Value
+		switch b := x.X.(type) {
+		case *ssa.Global:
+			base = b
+		case *ssa.Alloc:
+			base = b
+		default:
+			return nil, false
+		}
+		if al, isAl := base.(*ssa.Alloc); isAl {
+			// a local record variable assigned as a whole (shape := chooseShape(...)): the values assigned
+			var out []map[int]int64
+			whole, fieldwise := 0, false
+			okW := true
+			instrsOf(al.Parent(), func(_ *ssa.BasicBlock, in ssa.Instruction) {
+				st, ok := in.(*ssa.Store)
+				if !ok {
+					return
+				}
+				if st.Addr == ssa.Value(al) {
+					whole++
+					ts, ok := structConstTuples(p, st.Val, d+1)
+					if !ok {
+						okW = false
+					}
+					out = append(out, ts...)
+				} else if fa, ok := st.Addr.(*ssa.FieldAddr); ok && fa.X == ssa.Value(al) {
+					fieldwise = true
+				}
+			})
+			if whole > 0 {
+				if fieldwise || !okW {
+					return nil, false
+				}
+				return out, true
+			}
+		}
+		t := map[int]int64{}
+		okAll := true
+		var fns []*ssa.Function
+		if g, isG := base.(*ssa.Global); isG {
+			fns = p.FuncsOf(g.Pkg.Pkg.Path())
+			if ini := g.Pkg.Func("init"); ini != nil {
+				fns = append(fns, ini)
+			}
+		} else {
+			fns = []*ssa.Function{base.(*ssa.Alloc).Parent()}
+		}
+		for _, f := range fns {
+			instrsOf(f, func(_ *ssa.BasicBlock, in ssa.Instruction) {
+				st, ok := in.(*ssa.Store)
+				if !ok {
+					return
+				}
+				if st.Addr == base {
+					okAll = false // whole-record assignment
+					return
+				}
+				fa, ok := st.Addr.(*ssa.FieldAddr)
+				if !ok || fa.X != base {
+					return
+				}
+				if _, isG := base.(*ssa.Global); isG && f.Name() != "init" {
+					okAll = false // assigned outside the initialiser
+					return
+				}
+				c, isK := constInt(st.Val)
+				if !isK {
+					okAll = false
+					return
+				}
+				if old, dup := t[fa.Field]; dup && old != c {
+					okAll = false
+				}
+				t[fa.Field] = c
+			})
+		}
+		if !okAll || len(t) == 0 {
+			return nil, false
+		}
+		return []map[int]int64{t}, true
+	}
+	return nil, false
+}
